@@ -1,12 +1,12 @@
 """C10 — printed schemas are faithful: YANG and YIN output re-parse to the same module."""
 import os, re
-from checks import yangstrcomp, c10gen
+from checks import yangstrcomp, c10gen, yincomp
 from vlib import paths
 from vlib.proto import hexs, unhex
 
 LEAN_TARGETS = ["LyModel.Props.C10"]
 AUDIT = "Audit/C10.lean"
-GENERATED = ["YangStr"]
+GENERATED = ["YangStr", "YinArgs"]
 ASSUMPTIONS = [
     "DESIGN.md §5 C10: (P) string side proved on the model (ypr_encode/ypr_text/yprp_stmt vs read_qstring/get_argument/get_keyword/parse_ext_substmt); "
     "whole-module faithfulness (every statement printer, YIN printer/parser, compiled and tree printers) is (L): laws evaluated on the implementation",
@@ -118,6 +118,8 @@ def explain_yin_parse(msgs, yin):
 def classify(component, what, case):
     if component == yangstrcomp.COMP:
         return yangstrcomp.classify(component, what, case)
+    if component == yincomp.COMP:
+        return yincomp.classify(component, what, case)
     if case.get("crash"):
         err = case.get("stderr", "")
         if "tro_ext_printer_tree" in err and "printer_tree.c" in err:
@@ -157,6 +159,7 @@ def recompute(case):
 
 def run(cx):
     yangstrcomp.run_strings(cx)
+    yincomp.run_yin(cx)
     run_modules(cx)
 
 
